@@ -65,7 +65,12 @@ def _prefixscan_combine(func, binop, pre, x, axis, dtype):
     -------
     np.array
     """
-    return binop(pre, func(x, axis=axis, dtype=dtype))
+    out = binop(pre, func(x, axis=axis, dtype=dtype))
+    # ``pre`` is reduced in the input dtype, so ``binop`` may promote past an
+    # explicitly requested (narrower) result dtype.
+    if dtype is not None and getattr(out, "dtype", dtype) != dtype:
+        out = out.astype(dtype)
+    return out
 
 
 from dask_array._expr import ArrayExpr
